@@ -77,7 +77,7 @@ def run(tier, rep):
     # payloads that look like a whole frame / whose integer value is special
     from .. import stream_corpus
 
-    for pl in stream_corpus.framelike_payloads(rnd) + stream_corpus.special_int_payloads(rnd):
+    for pl in stream_corpus.framelike_payloads(rnd) + stream_corpus.special_int_payloads(rnd) + stream_corpus.texty_payloads(corp.bundle, rnd, 24):
         rid, r, msg = corp.add(pl, 1, keep_msg=True, lbl=False, ident="special", kind="header")
         if msg is not None:
             r["ops"] = [message_rec.do_op(msg, op, fields) for op in ops]
